@@ -541,8 +541,10 @@ func (s *Subscription) removeReference(rid string) {
 	ref := s.refs[rid]
 	ref.count--
 	if ref.count == 0 {
-		s.c.Unsubscribe(ref.sub, false, s.IsSent(), 1, true)
+		// Delete the reference before unsubscribing, so that a traversal started
+		// by the unsubscribe does not follow the reference being removed.
 		delete(s.refs, rid)
+		s.c.Unsubscribe(ref.sub, false, s.IsSent(), 1, true)
 	}
 }
 
